@@ -514,15 +514,15 @@ impl Property for P {
         ]
     }
     fn workloads(&self, tier: Tier) -> Vec<Workload> {
-        let l = tier.pick(5u32, 6u32);
-        let k = tier.pick(3u32, 4u32);
+        let l = tier.pick(5u32, 7u32);
+        let k = tier.pick(3u32, 5u32);
         vec![
-            Workload::new(if l == 5 { "alphabet-5" } else { "alphabet-6" }, 11u64.pow(l) * 10, true, format!("all strings of length {} over the 11-symbol alphabet x 5 calls x whole/growing", l)),
-            Workload::new("alphabet-short", (1..5u32).map(|n| 11u64.pow(n)).sum::<u64>() * 10, true, "all strings of length 1..4"),
-            Workload::new(if k == 3 { "tokens-3" } else { "tokens-4" }, 20u64.pow(k) * 4, true, format!("all sequences of {} tokens x 2 calls x whole/growing", k)),
-            Workload::new("tokens-short", (20 + 400) * 4, true, "all sequences of 1..2 tokens"),
+            Workload::new(if l == 5 { "alphabet-5" } else { "alphabet-7" }, 11u64.pow(l) * 10, true, format!("all strings of length {} over the 11-symbol alphabet x 5 calls x whole/growing", l)),
+            Workload::new("alphabet-short", (1..l).map(|n| 11u64.pow(n)).sum::<u64>() * 10, true, "all shorter strings"),
+            Workload::new(if k == 3 { "tokens-3" } else { "tokens-5" }, 20u64.pow(k) * 4, true, format!("all sequences of {} tokens x 2 calls x whole/growing", k)),
+            Workload::new("tokens-short", (1..k).map(|n| 20u64.pow(n)).sum::<u64>() * 4, true, "all shorter token sequences"),
             Workload::new("byte-sweeps", 8 * 256, true, "every byte value at 8 head positions and 2 chunk positions"),
-            Workload::new("mutations", tier.pick(30_000, 1_500_000), false, "mutated valid exchanges under random schedules"),
+            Workload::new("mutations", tier.pick(30_000, 6_000_000), false, "mutated valid exchanges under random schedules"),
             Workload::new("five-close-conditions", 64, true, "HTTP/1.0 + client close + refused 100 + server close + close-delimited"),
         ]
     }
@@ -530,9 +530,10 @@ impl Property for P {
         match wl {
             "alphabet-5" => alphabet_case(idx, 5, rec),
             "alphabet-6" => alphabet_case(idx, 6, rec),
+            "alphabet-7" => alphabet_case(idx, 7, rec),
             "alphabet-short" => {
                 let mut i = idx;
-                for n in 1..5u32 {
+                for n in 1..7u32 {
                     let sz = 11u64.pow(n) * 10;
                     if i < sz {
                         return alphabet_case(i, n, rec);
@@ -542,11 +543,15 @@ impl Property for P {
             }
             "tokens-3" => token_case(idx, 3, rec),
             "tokens-4" => token_case(idx, 4, rec),
+            "tokens-5" => token_case(idx, 5, rec),
             "tokens-short" => {
-                if idx < 80 {
-                    token_case(idx, 1, rec)
-                } else {
-                    token_case(idx - 80, 2, rec)
+                let mut i = idx;
+                for n in 1..5u32 {
+                    let sz = 20u64.pow(n) * 4;
+                    if i < sz {
+                        return token_case(i, n, rec);
+                    }
+                    i -= sz;
                 }
             }
             "byte-sweeps" => sweep_case(idx, rec),
